@@ -547,7 +547,7 @@ func init() {
 			"each run is compared with a CLI model that maps the flags to the documented library calls: exit status, stdout bytes, -o file bytes (stdout empty), stdin vs file; the patch-mode leg feeds the library's diff to `jd -p` and requires the output to equal the library rendering and to reproduce b; " +
 			"non-trivial = every run; distinct = distinct (shape, binary, inputs)",
 		Floors: map[string]int{"cli_runs": 5000, "status_0": 500, "status_1": 500, "status_2": 200, "with_-o": 1000, "-o_onto_existing_longer_file": 500, "stdin_vs_file_pairs": 100, "setkeys_spellings": 100, "in_place_-o": 10, "second_input_from_stdin": 1000, "colour_output": 300, "patch_mode_runs": 1000,
-			"pipeline_reproduces_b:jd": 300, "pipeline_reproduces_b:patch": 50, "pipeline_reproduces_b:merge": 50, "pipeline_yaml": 200, "translate_runs": 120, "translate_spelling_runs": 150, "void_and_empty_pairs": 300, "git_diff_driver_runs": 15, "error_cases": 200},
+			"pipeline_reproduces_b:jd": 300, "pipeline_reproduces_b:patch": 50, "pipeline_reproduces_b:merge": 50, "pipeline_yaml": 200, "translate_runs": 120, "translate_spelling_runs": 150, "void_and_empty_pairs": 300, "unreadable_input_runs": 30, "git_diff_driver_runs": 15, "error_cases": 200},
 		Assumptions: []string{
 			"the CLI model (props/c14.go modelDiff / modelPatch) encodes the documented mapping: flags -> options, -f -> renderer / reader, status 0 no difference / 1 difference / 2 error",
 			"-precision together with -set / -mset is a documented refusal (status 2)",
@@ -748,6 +748,38 @@ func init() {
 			if err != nil || !ref.Eq(back, bv, ref.List) {
 				c.Violation("print-then-patch does not reproduce b (content with significant trailing white space)", map[string]any{"patched": p1.Stdout, "b": ref.ToJSON(bv)})
 			}
+		},
+	})
+	unreadable := [][]string{
+		{"missing.json", "b.json"}, {"a.json", "missing.json"}, {".", "b.json"}, {"a.json", "."},
+		{"-p", "missing.diff", "a.json"}, {"-p", "p.diff", "missing.json"}, {"-p", "p.diff", "."},
+		{"-t", "jd2patch", "missing.diff"}, {"-t", "json2yaml", "."}, {"-f", "patch", "a.json", "missing.json"}, {"-yaml", "missing.yaml", "b.json"},
+		{"-git-diff-driver", "path", "missing.json", "oldhex", "100644", "b.json", "newhex", "100644"},
+	}
+	p.Strata = append(p.Strata, mon.Stratum{
+		Name:       "unreadable-inputs",
+		CLI:        true,
+		N:          n(len(unreadable) * 3),
+		Exhaustive: always,
+		Run: func(c *mon.Ctx, i int) {
+			// an input that cannot be read (missing file, a directory) is an error: status 2, a message, no output
+			bin := Binaries[i%3]
+			args := unreadable[i/3]
+			c.Input("binary", bin.Name)
+			c.Input("argv", fmt.Sprint(args))
+			c.Feature("unreadable_input_runs")
+			c.Nontrivial(joinKey("unreadable", bin.Name, fmt.Sprint(args)))
+			res := RunCLI(c, bin, args, "", map[string]string{"a.json": `{"a":1}`, "b.json": `{"a":2}`, "p.diff": "@ [\"a\"]\n- 1\n+ 2\n"})
+			c.Feature("cli_runs")
+			extra := map[string]any{"status": res.Status, "stdout": res.Stdout, "stderr": res.Stderr}
+			if HasCrashMarkers(res.Stderr) {
+				c.Violation("the CLI crashed", extra)
+				return
+			}
+			if res.Status != 2 || strings.TrimSpace(res.Stdout) != "" || strings.TrimSpace(res.Stderr) == "" {
+				c.Violation(fmt.Sprintf("an unreadable input must end with status 2, a message and no output; got status %d", res.Status), extra)
+			}
+			c.Feature("error_cases")
 		},
 	})
 	p.Strata = append(p.Strata, mon.Stratum{
@@ -1019,7 +1051,7 @@ func init() {
 				args := append(append([]string{}, g.flags...), "-git-diff-driver", "path", "a.json", "oldhex", "100644", "b.json", "newhex", "100644")
 				check(args, "", map[string]string{"a.json": gaT, "b.json": gbT}, 0, want, "-git-diff-driver "+fmt.Sprint(g.flags))
 			case 5:
-				if i%2 == 0 {
+				if (i/30)%2 == 0 { // not i%2: the binary is chosen by i%3 and the case by (i/3)%10, so i%2 is tied to the binary
 					check([]string{"missing.json", "b.json"}, "", map[string]string{"b.json": bText}, 2, "", "missing file")
 					return
 				}
